@@ -31,6 +31,7 @@ Fresh(cfg) == [cfg |-> cfg,
                dlcaller |-> FALSE,  \* some ForceFlush was called with a ctx that carries a deadline
                sdCalled |-> FALSE,  \* some Shutdown call has begun
                sdRet |-> FALSE,     \* some Shutdown call has returned nil
+               sdNil |-> {},        \* the Shutdown calls that have returned nil
                sdRetErr |-> FALSE,  \* some Shutdown call has returned an error
                sdProcs |-> {},      \* the Shutdown calls made so far
                expShut |-> FALSE]   \* exporter.Shutdown was called
@@ -45,6 +46,9 @@ Missing(m, S) == (((S \ m.handed) \ m.dropped) \ m.ignored) \ (IF m.cfg.kind = "
 (* the ctx of some Shutdown call is done and the exporter has not been shut down yet: the drain that call
    started (or waited for) may still be running in the background although the call has returned (D5) *)
 DrainOutlives(m) == m.sdProcs \cap m.ctxdone # {} /\ ~m.expShut
+(* ... and some OTHER Shutdown call (one of N) has returned nil meanwhile (D7); a Shutdown that returns nil
+   itself although its own ctx expired before the drain was done is not excused *)
+EarlyNil(m, N) == ~m.expShut /\ \E o \in m.sdProcs \cap m.ctxdone : N \ {o} # {}
 
 (* Step(m, e) = <<next monitor state, set of violated clauses (records)>> *)
 Step(m, e) ==
@@ -67,9 +71,10 @@ Step(m, e) ==
                      proc |-> e.proc, missing |-> Missing(m, m.snap[e.proc])]}
               ELSE {}>>
     [] e.ev = "Ret" /\ e.op = "SD" ->
-         <<[m EXCEPT !.sdRet = (@ \/ e.err = ""), !.sdRetErr = (@ \/ e.err # "")],
+         <<[m EXCEPT !.sdRet = (@ \/ e.err = ""), !.sdRetErr = (@ \/ e.err # ""),
+                     !.sdNil = IF e.err = "" THEN @ \cup {e.proc} ELSE @],
            IF e.err = "" /\ Missing(m, m.snap[e.proc]) # {}
-           THEN {[kind |-> IF DrainOutlives(m) THEN "shutdown-nil-while-expired-drain-runs"
+           THEN {[kind |-> IF EarlyNil(m, {e.proc}) THEN "shutdown-nil-while-expired-drain-runs"
                            ELSE IF Missing(m, m.snap[e.proc]) \subseteq m.raced THEN "shutdown-missed-raced"
                            ELSE "shutdown-missed",
                   proc |-> e.proc, missing |-> Missing(m, m.snap[e.proc])]} ELSE {}>>
@@ -82,9 +87,9 @@ Step(m, e) ==
            \cup (IF m.inflight THEN {[kind |-> "concurrent-export"]} ELSE {})
            \cup (IF m.expShut THEN {[kind |-> "export-after-shutdown"]}
                  ELSE IF ~(m.sdRet \/ m.sdRetErr) THEN {}
-                 ELSE IF ~DrainOutlives(m) THEN {[kind |-> "export-after-shutdown"]}
-                 ELSE IF m.sdRet THEN {[kind |-> "export-after-nil-shutdown-while-expired-drain-runs"]}
-                 ELSE {[kind |-> "export-after-expired-shutdown"]})
+                 ELSE IF m.sdNil = {} /\ DrainOutlives(m) THEN {[kind |-> "export-after-expired-shutdown"]}
+                 ELSE IF EarlyNil(m, m.sdNil) THEN {[kind |-> "export-after-nil-shutdown-while-expired-drain-runs"]}
+                 ELSE {[kind |-> "export-after-shutdown"]})
            \cup (IF ids \cap (m.dropped \cup m.ignored \cup m.abandoned) # {} THEN {[kind |-> "exported-a-dropped-span"]} ELSE {})
            \* ExportTimeout > 0 <=> the exporter's ctx carries a deadline (a ForceFlush export inherits its caller's)
            \cup (IF m.cfg.kind = "batch" /\ m.cfg.exportTimeout /\ ~e.deadline THEN {[kind |-> "export-without-deadline"]} ELSE {})
